@@ -5,7 +5,10 @@ import (
 	"fmt"
 	"reflect"
 
+	"go.sia.tech/core/consensus"
+
 	"go.sia.tech/core/types"
+	"verif/sim"
 )
 
 // Rows added after the fifth wave of seeded changes (and one finding of its
@@ -688,6 +691,130 @@ func init() {
 		if sc.mine([]types.Transaction{t1}, nil) == nil && sc.v1ok() {
 			verr, ok = sc.offer([]types.Transaction{t2}, nil, offerOpt{})
 			w.expect("C02", "D2-v1-proof-fee-input-respent-next-block", verr, ok, false, fmt.Sprintf("output %v paid the fee of a storage-proof transaction in the previous block and is spent again", e.ID))
+		}
+	}})
+
+	// ---- C03: what a whole-transaction signature covers includes where one arbitrary-data entry ends
+	registerRows("C03", probeRow{"A1-v1-arbitrary-data-boundary", func(w *World, n *Node) {
+		sc := n.fork()
+		if !sc.v1ok() {
+			return
+		}
+		e, ok := pickSC(w, sc.ownedSC(true, true))
+		if !ok {
+			return
+		}
+		txn, ok := w.spendV1(sc.s, []types.SiacoinElement{e}, w.advAddr())
+		if !ok {
+			return
+		}
+		blob := sim.HashBytes("arb-boundary", uint64(w.tape.Choose(1<<16)), 0, w.tape.Range(4, 40))
+		cut := w.tape.Range(1, len(blob)-1)
+		txn.ArbitraryData = [][]byte{append([]byte("NonSia"), blob[:cut]...), blob[cut:]}
+		w.signAllV1(sc.s, &txn)
+		verr, ok := sc.offer([]types.Transaction{txn}, nil, offerOpt{})
+		w.expect("C03", "A1-v1-arbitrary-data-control", verr, ok, true, "v1 transaction with two arbitrary-data entries, whole-transaction signature")
+		if verr != nil {
+			return
+		}
+		shift := func(by int) types.Transaction {
+			t := txn
+			a, b := txn.ArbitraryData[0], txn.ArbitraryData[1]
+			joined := append(append([]byte(nil), a...), b...)
+			k := len(a) + by
+			t.ArbitraryData = [][]byte{joined[:k], joined[k:]}
+			return t
+		}
+		for _, by := range []int{-1, 1, len(txn.ArbitraryData[1])} {
+			if k := len(txn.ArbitraryData[0]) + by; k < 6 || k > len(txn.ArbitraryData[0])+len(txn.ArbitraryData[1]) {
+				continue
+			}
+			verr, ok := sc.offer([]types.Transaction{shift(by)}, nil, offerOpt{})
+			w.expect("C03", "A1-v1-arbitrary-data-boundary-moved", verr, ok, false, fmt.Sprintf("after signing, the boundary between the two arbitrary-data entries is moved by %d bytes (same bytes, same number of entries)", by))
+		}
+	}})
+
+	// ---- C03: naming the current subsidy address as the new Foundation address is an update like any other
+	registerRows("C03", probeRow{"A5-v2-foundation-update-to-current-address", func(w *World, n *Node) {
+		sc := n.fork()
+		if !sc.v2ok() || sc.s.FoundationSubsidyAddress == sc.s.FoundationManagementAddress {
+			return
+		}
+		for _, e := range sc.ownedSC(false, true) {
+			if e.SiacoinOutput.Address == sc.s.FoundationManagementAddress {
+				continue
+			}
+			for _, target := range []types.Address{sc.s.FoundationSubsidyAddress, sc.s.FoundationManagementAddress} {
+				target := target
+				t, ok := w.spendV2(sc.s, []types.SiacoinElement{e}, w.advAddr())
+				if !ok {
+					return
+				}
+				t.NewFoundationAddress = &target
+				if !w.signAllV2(sc.s, &t) {
+					return
+				}
+				verr, ok := sc.offer(nil, []types.V2Transaction{t}, offerOpt{})
+				w.expect("C03", "A5-v2-unauthorized-update-to-current-address", verr, ok, false, fmt.Sprintf("a transaction spending no input of the management address sets the Foundation address to %v (subsidy address %v, management address %v)", target, sc.s.FoundationSubsidyAddress, sc.s.FoundationManagementAddress))
+			}
+			return
+		}
+	}})
+
+	// ---- C03: a revision needs its signatures whatever else the transaction lacks
+	registerRows("C03", probeRow{"A1-v1-revision-only-unsigned", func(w *World, n *Node) {
+		sc := n.fork()
+		if !sc.v1ok() {
+			return
+		}
+		c := sc.pickLive(false, func(c *Contract) bool {
+			fc := sc.store.FC[c.id].FileContract
+			return fc.WindowStart > sc.child()+1 && fc.RevisionNumber < types.MaxRevisionNumber-4
+		})
+		if c == nil {
+			return
+		}
+		cur := sc.store.FC[c.id].FileContract
+		txn := w.reviseV1From(sc.s, c, cur, nil, 1)
+		verr, ok := sc.offer([]types.Transaction{txn}, nil, offerOpt{})
+		w.expect("C03", "A1-v1-revision-only-control", verr, ok, true, "a transaction consisting of one signed contract revision")
+		if verr != nil || len(txn.Signatures) == 0 {
+			return
+		}
+		for drop := len(txn.Signatures); drop >= 1; drop-- {
+			t := txn
+			t.Signatures = append([]types.TransactionSignature(nil), txn.Signatures[:len(txn.Signatures)-drop]...)
+			verr, ok := sc.offer([]types.Transaction{t}, nil, offerOpt{})
+			w.expect("C03", "A1-v1-revision-only-signatures-dropped", verr, ok, false, fmt.Sprintf("the same transaction with its last %d of %d signatures removed", drop, len(txn.Signatures)))
+		}
+	}})
+
+	// ---- C04: contracts the supplement of a block without v1 transactions lists as expiring
+	registerRows("C04", probeRow{"M1-v1-expiring-supplement", func(w *World, n *Node) {
+		sc := n.fork()
+		if !sc.v1ok() {
+			return
+		}
+		try := func(row string, fce types.FileContractElement, detail string) {
+			verr, ok := sc.offer(nil, nil, offerOpt{mutate: func(b *types.Block, bs *consensus.V1BlockSupplement) {
+				bs.ExpiringFileContracts = append(bs.ExpiringFileContracts, fce)
+			}})
+			w.expect("C04", row, verr, ok, false, detail)
+		}
+		// a contract that never existed
+		try("M1-v1-expiring-invented", types.FileContractElement{ID: types.FileContractID{3, 1, 4}, StateElement: types.StateElement{LeafIndex: uint64(w.tape.Choose(int(min(sc.s.Elements.NumLeaves, 1<<20))))},
+			FileContract: types.FileContract{WindowStart: sc.child() - 1, WindowEnd: sc.child(), Payout: types.Siacoins(1000), MissedProofOutputs: []types.SiacoinOutput{{Value: types.Siacoins(961), Address: w.advAddr()}}}},
+			"an empty block whose supplement lists a contract that never existed as expiring (its missed outputs would be created)")
+		// a live contract with its missed outputs redirected
+		if c := sc.pickLive(false, nil); c != nil {
+			fce := sc.store.FC[c.id].Copy()
+			fce.FileContract.MissedProofOutputs = append([]types.SiacoinOutput(nil), fce.FileContract.MissedProofOutputs...)
+			if len(fce.FileContract.MissedProofOutputs) > 0 {
+				fce.FileContract.MissedProofOutputs[0].Address = w.advAddr()
+				if fce.FileContract.MissedProofOutputs[0].Address != sc.store.FC[c.id].FileContract.MissedProofOutputs[0].Address {
+					try("M1-v1-expiring-altered", fce, fmt.Sprintf("an empty block whose supplement lists the live contract %v as expiring with its first missed output redirected", c.id))
+				}
+			}
 		}
 	}})
 
